@@ -7,7 +7,7 @@ import sys
 import esrv
 
 PROPS_V = "Props/C02.v"
-TRANSLATORS = ["symtab"]
+TRANSLATORS = ["symtab", "nodestr"]
 GEN = os.path.join(esrv.VERIF, "harness", "corr", "gen_run.py")
 IMPL = os.path.join(esrv.VERIF, "harness", "corr", "c02_impl.py")
 TRUSTED = [
@@ -15,7 +15,10 @@ TRUSTED = [
     "Print Assumptions: node_to_string theorems closed; symbol-table theorems use the standard-library real-number axioms "
     "(ClassicalDedekindReals.sig_not_dec, sig_forall_dec, FunctionalExtensionality.functional_extensionality_dep, Classical_Prop.classic)",
     "translator harness/translate/symtab.py (sympy_symbols.py Lambdas and Likelihood.run_sympify locals -> Gen/GenSymtab.v) and the real-valued reading of sympy constructors in Model/SymSem.v",
-    "hand-written Model/NodeStr.v, tied by comparing its string with the real node_to_string on every explored tree",
+    "translator harness/translate/nodestr.py: generator.node_to_string is regenerated into Gen/GenNodeStr.v (fuelled recursion over the node arrays of check_tree) "
+    "and proved, for every shape, offset and label list, to return the structural rendering of Model/NodeStr.v (C02_code_node_to_string; chained with check_tree in "
+    "C02_code_check_tree_then_node_to_string)",
+    "hand-written Model/NodeStr.v, additionally tied by comparing its string with the real node_to_string on every explored tree",
     "hop (b) sympy parsing/auto-evaluation and hop (c) the printer (C12) are validated per line numerically, not proved here",
 ]
 ASSUMPTIONS = [
@@ -43,6 +46,11 @@ SUB = {
     "verif_powroot": [["x", "a"], ["inv", "sqrt_abs"], ["/", "pow"]],
     "verif_cube": [["x", "a"], ["cube", "inv", "log_abs"], ["+", "*", "-"]],
     "verif_nominus": [["x", "a"], ["inv", "log_abs", "square"], ["+", "*", "/"]],
+    # directed: quotients of powers whose exponent is a scaled parameter (x/pow(square(x),a0) = x*x**(-2*a0): the printer's
+    # denominator handling), and a unary-only basis with a long operator name (a tree line longer than 80 characters at n = 7:
+    # every per-function file must still have one line per function)
+    "verif_sqpow": [["x", "a"], ["square"], ["/", "pow"]],
+    "verif_longlabel": [["x", "a"], ["log10_abs"], []],
 }
 
 
@@ -75,10 +83,12 @@ def lt_of(labels, shape):
 def libs(ctx):
     if ctx.quick:
         return [("core_maths", 4, 400), ("keep_duplicates", 3, 400), ("ext_maths", 3, 300), ("osc_maths", 3, 200),
-                ("base10_maths", 3, 200), ("base_e_maths", 4, 300), ("verif_cube", 4, 300), ("verif_nominus", 4, 300), ("verif_powroot", 5, 400)]
+                ("base10_maths", 3, 200), ("base_e_maths", 4, 300), ("verif_cube", 4, 300), ("verif_nominus", 4, 300), ("verif_powroot", 5, 400),
+                ("verif_sqpow", 6, 700), ("verif_longlabel", 7, 50)]
     out = [(b, n, 4000) for b in SHIPPED for n in (1, 2, 3, 4)] + [("core_maths", 5, 4000), ("core_maths", 6, 1500),
             ("keep_duplicates", 5, 2500), ("ext_maths", 5, 2500), ("base_e_maths", 5, 2000)]
-    out += [(b, n, 3000) for b in SUB for n in (3, 4, 5)]
+    out += [(b, n, 3000) for b in SUB for n in (3, 4, 5) if b not in ("verif_longlabel",)]
+    out += [("verif_sqpow", 6, 3000), ("verif_longlabel", 7, 50), ("verif_longlabel", 8, 50)]
     return out
 
 
